@@ -3,6 +3,7 @@ package checks
 import (
 	"encoding/binary"
 
+	"github.com/google/go-tdx-guest/verify"
 	"verif/sim/core"
 	"verif/sim/world"
 )
@@ -92,7 +93,7 @@ func c07Doc(t *core.Tape, w *world.World, rep *world.QEReport, version int) *wor
 		if t.Chance(2, 5) {
 			st = "UpToDate"
 		}
-		d.Levels = append(d.Levels, world.QELevel{Isvsvn: uint32(iv), Status: st})
+		d.Levels = append(d.Levels, world.QELevel{Isvsvn: uint32(iv), Status: st, Date: world.RandTcbDate(t)})
 	}
 	return d
 }
@@ -110,6 +111,11 @@ func c07Run(r *core.Run) {
 	r.Eventf("world %s", w.Describe())
 	version := 1
 	nEvents := 3 + t.Draw(5)
+	var longLived *verify.Options
+	if t.Bool() {
+		longLived = worldOpts(w, O1) // a long-lived verifier: one options value serves the whole timeline
+		r.Probe("timeline_through_one_options_value")
+	}
 	for ev := 0; ev < nEvents; ev++ {
 		switch t.Draw(3) {
 		case 0: // the QE is updated / differs: new report, signed by the PCK key, binding kept valid
@@ -141,7 +147,14 @@ func c07Run(r *core.Run) {
 		}
 		mv := world.EvalQE(w.QE, &w.Quote.QE)
 		raw := w.Quote.Bytes()
-		o := verifyRaw(raw, worldOpts(w, O1+t.Draw(2)))
+		opts := worldOpts(w, O1+t.Draw(2))
+		if longLived != nil {
+			lvl := O1 + t.Draw(2)
+			longLived.GetCollateral, longLived.CheckRevocations = true, lvl == O2
+			longLived.Getter = w.PCS
+			opts = longLived
+		}
+		o := verifyRaw(raw, opts)
 		r.Eval()
 		st := "none"
 		if mv.Level >= 0 {
@@ -183,6 +196,6 @@ func init() {
 			return 600
 		},
 		Run:       c07Run,
-		MustProbe: []string{"first_match_not_first_level", "no_level_matches", "wrong_mask_length"},
+		MustProbe: []string{"first_match_not_first_level", "no_level_matches", "wrong_mask_length", "timeline_through_one_options_value"},
 	})
 }
